@@ -62,3 +62,149 @@ func classOf(n int) int {
 	}
 	return 40000
 }
+
+// ---- abstract gob stream: an encoder writes, in front of the first value of a type, the
+// description of that type; a decoder needs the description before the first value and
+// rejects a description it already has ("duplicate type received").  Records are
+// [kind, typeid, id, pad...]; a "big" value is padded beyond the 32 KiB cap.
+
+type c19Msg struct{ ID int }
+
+const (
+	recType  = 0x54
+	recValue = 0x56
+)
+
+type gobWorld struct {
+	encW      map[*gob.Encoder]*bytes.Buffer
+	encKnown  map[*gob.Encoder]bool
+	decR      map[*gob.Decoder]*bufferRotator
+	decKnown  map[*gob.Decoder]bool
+	nextBig   bool
+	wire      [][]byte
+	sendFails bool
+}
+
+func installGobWorld() *gobWorld {
+	g := &gobWorld{encW: map[*gob.Encoder]*bytes.Buffer{}, encKnown: map[*gob.Encoder]bool{}, decR: map[*gob.Decoder]*bufferRotator{}, decKnown: map[*gob.Decoder]bool{}}
+	sym.Intercept("encoding/gob.NewEncoder", func(w any) *gob.Encoder {
+		e := new(gob.Encoder)
+		g.encW[e] = w.(*bytes.Buffer)
+		return e
+	})
+	sym.Intercept("encoding/gob.NewDecoder", func(r any) *gob.Decoder {
+		d := new(gob.Decoder)
+		g.decR[d] = r.(*bufferRotator)
+		return d
+	})
+	sym.Intercept("(*encoding/gob.Encoder).Encode", func(e *gob.Encoder, v any) error {
+		w := g.encW[e]
+		sym.Assert(w != nil, "model: unknown encoder")
+		m := v.(*c19Msg)
+		if !g.encKnown[e] {
+			g.encKnown[e] = true
+			w.Write([]byte{recType, 1, 0})
+		}
+		w.Write([]byte{recValue, 1, byte(m.ID)})
+		if g.nextBig {
+			w.Write(make([]byte, bufferSize))
+		}
+		return nil
+	})
+	sym.Intercept("(*encoding/gob.Decoder).Decode", func(d *gob.Decoder, v any) error {
+		r := g.decR[d]
+		sym.Assert(r != nil, "model: unknown decoder")
+		for {
+			rec := make([]byte, 3)
+			n, _ := r.Read(rec)
+			if n < 3 {
+				return syscall.EIO // io.ErrUnexpectedEOF / EOF
+			}
+			switch rec[0] {
+			case recType:
+				if g.decKnown[d] {
+					return syscall.EINVAL // gob: duplicate type received
+				}
+				g.decKnown[d] = true
+			case recValue:
+				if !g.decKnown[d] {
+					return syscall.ENOENT // gob: type not found
+				}
+				v.(*c19Msg).ID = int(rec[2])
+				return nil
+			default:
+				return syscall.EBADMSG
+			}
+		}
+	})
+	sym.Intercept("(*github.com/criyle/go-sandbox/pkg/unixsocket.Socket).SendMsg", func(u *unixsocket.Socket, b []byte, m unixsocket.Msg) error {
+		if g.sendFails {
+			return syscall.EBADF // e.g. a bad descriptor in the ancillary data
+		}
+		g.wire = append(g.wire, append([]byte(nil), b...))
+		return nil
+	})
+	sym.Intercept("(*github.com/criyle/go-sandbox/pkg/unixsocket.Socket).RecvMsg", func(u *unixsocket.Socket, b []byte) (int, unixsocket.Msg, error) {
+		if len(g.wire) == 0 {
+			return 0, unixsocket.Msg{}, syscall.ECONNRESET
+		}
+		p := g.wire[0]
+		g.wire = g.wire[1:]
+		if len(p) > len(b) {
+			return 0, unixsocket.Msg{}, syscall.EMSGSIZE
+		}
+		return copy(b, p), unixsocket.Msg{}, nil
+	})
+	return g
+}
+
+// VerifC19_FramedSequence: the real framed layer (socket.SendMsg / RecvMsg, 32 KiB cap) on
+// both ends over a packet transport, for sequences of three messages where each send may
+// fail in the transport or be oversized (symbolic): every packet that reaches the receiver
+// is received and decodes to exactly the message whose send produced it - a message that was
+// never sent successfully is never delivered, and an earlier failure neither changes what a
+// later message says nor makes the receiver reject it.
+func VerifC19_FramedSequence() {
+	g := installGobWorld()
+	snd := newSocket(&unixsocket.Socket{UnixConn: &net.UnixConn{}})
+	rcv := newSocket(&unixsocket.Socket{UnixConn: &net.UnixConn{}})
+	var sentIDs []int
+	firstUseDropped := false // the very first message (which carries the type description) did not reach the wire
+	for k := 1; k <= 3; k++ {
+		g.sendFails = sym.Bool("transport_send_fails")
+		g.nextBig = sym.Bool("oversized")
+		before := len(g.wire)
+		err := snd.SendMsg(&c19Msg{ID: k}, unixsocket.Msg{})
+		if g.sendFails || g.nextBig {
+			sym.Reach("send-rejected")
+			sym.Assert(err != nil, "a send that failed or was over the cap must be reported")
+			if g.nextBig {
+				sym.Assert(len(g.wire) == before, "an oversized message must not reach the wire")
+			}
+		} else {
+			sym.Assert(err == nil, "a message within the cap on a working transport must be sent")
+		}
+		if len(g.wire) > before {
+			sentIDs = append(sentIDs, k)
+		} else if len(sentIDs) == 0 {
+			firstUseDropped = true
+		}
+	}
+	for _, want := range sentIDs {
+		var m c19Msg
+		_, err := rcv.RecvMsg(&m)
+		if err != nil {
+			sym.Reach("receive-rejected")
+			if firstUseDropped {
+				// known finding: the dropped first message took the gob type description with it
+				sym.Extra("class", "type-description-lost-with-first-message")
+				sym.Assert(false, "a fitting message is not received after the first message of its type was rejected on the sending side")
+			} else {
+				sym.Assert(false, "a message that was sent successfully is rejected by the receiver")
+			}
+			continue
+		}
+		sym.Reach("delivered")
+		sym.Assert(m.ID == want, "a delivered message is not the one whose send produced the packet (stale or foreign content)")
+	}
+}
